@@ -85,6 +85,13 @@ func longInput(t *rapid.T, x *X, c *Case) {
 	if g.Rule("Loop") == nil || g.Profile == "leftrec" || gspec.U(t, 150, "longinput") != 0 {
 		return
 	}
+	listed := false
+	for _, e := range g.Entries {
+		listed = listed || e == "Loop"
+	}
+	if !listed {
+		return // (C09 protects a subset of the entries only: the others may be optimized away)
+	}
 	target := gspec.Pick(t, []int{300, 1100, 4200, 9000}, "longlen")
 	sep := gspec.Pick(t, []string{"\n", "", " "}, "longsep")
 	var in []byte
